@@ -267,6 +267,12 @@ MEDDLY::saturation_set_mtrel<EOP, ATYPE>
         sat_ct->setFixed(resF, arg2F);
     }
 
+    //
+    // A recFire result is saturated with the part of the relation at or
+    // below its level, so that part is also part of the key.
+    //
+    fire_ct->appendFixed(arg2F);
+
     if (EOP::hasEdgeValues()) {
         fire_ct->setResult(EOP::edgeValueTypeLetter(), resF);
         sat_ct->setResult(EOP::edgeValueTypeLetter(), resF);
@@ -653,9 +659,11 @@ void MEDDLY::saturation_set_mtrel<EOP, ATYPE>::recFire(int L,
         key[0].setI(L);
         key[1].setN(A);
         key[2].setN(B);
+        key[3].setN(top_at_or_below[L].getNode());
     } else {
         key[0].setN(A);
         key[1].setN(B);
+        key[2].setN(top_at_or_below[L].getNode());
     }
 
     if (fire_ct->findCT(key, res)) {
